@@ -1,16 +1,18 @@
 import Mkdb.Proofs.Aggregate
 import Mkdb.Proofs.NoPanicExec
+import Mkdb.Proofs.GroupNoAgg
 /-!
 # C07 — COUNT, AVG and GROUP BY compute true aggregates
 
-Property theorems only (proofs in `Mkdb/Proofs/Aggregate.lean`, `NoPanicExec.lean`).
+Property theorems only (proofs in `Mkdb/Proofs/Aggregate.lean`, `NoPanicExec.lean`,
+`GroupNoAgg.lean`).
 Full statement for GROUP BY and COUNT; AVG is a *known finding*: the code keeps a
 cumulative average rounded after every row, so "AVG = round(sum/count), independent of row
 order" is false of the code and of the model — `C07_avg_counterexample` is its witness and
 `C07_avg_partial` what does hold.
 -/
 namespace Mkdb.Exec
-open Mkdb.Sql Mkdb.Exec.AggP Mkdb.Exec.NoPanicP
+open Mkdb.Sql Mkdb.Exec.AggP Mkdb.Exec.NoPanicP Mkdb.Exec.GroupNoAggP
 
 /-- **C07.one_group_per_key**: grouping produces exactly one group per distinct tuple of
 grouping values, in first-occurrence order. -/
@@ -58,6 +60,36 @@ theorem C07_one_row_per_key (sl : List DerivedCol) (groupBy : List ColRef) (rows
     ∃ idxs, groupIdxs sl groupBy = .ok idxs ∧
       out.length = ((rows.map fun r => idxs.map fun i => (r[i]?).getD .null).eraseDups).length :=
   aggregateRows_one_row_per_key sl groupBy rows out hagg hne h
+
+/-- **C07.group_by_without_aggregate**: a GROUP BY groups whether or not the select list holds an
+aggregate - `SELECT a FROM t GROUP BY a` returns one row per distinct `a`, not every row (the
+defect repaired in `aggregateRows`: it used to return early on "no aggregate").  For a select list
+without aggregates, a non-empty GROUP BY whose references all designate a select-list column, and
+projected rows with one value per select-list element (what `projectColumns` delivers), the result
+has exactly one row per distinct grouping key (`groupKey idxs r` = the values of `r` at the GROUP BY
+positions): (1) the keys of the output rows are pairwise distinct, (2) every key of an input row is
+the key of an output row and conversely, (3) every output row is an input row, namely the first
+with its key, (4) in order of first occurrence of the keys. -/
+theorem C07_group_by_without_aggregate (sl : List DerivedCol) (groupBy : List ColRef)
+    (rows : List Row) (hagg : hasAggr sl = false) (hne : groupBy ≠ [])
+    (hres : ∀ g ∈ groupBy, ∃ i, groupIdx sl g = some i)
+    (hlen : ∀ r ∈ rows, r.length = sl.length) :
+    ∃ idxs out, groupIdxs sl groupBy = .ok idxs ∧ aggregateRows sl groupBy rows = .ok out ∧
+      (out.map (groupKey idxs)).Nodup ∧
+      ((∀ r ∈ rows, ∃ o ∈ out, groupKey idxs o = groupKey idxs r) ∧
+       (∀ o ∈ out, ∃ r ∈ rows, groupKey idxs r = groupKey idxs o)) ∧
+      (∀ o ∈ out, o ∈ rows ∧
+        rows.find? (fun r => groupKey idxs r == groupKey idxs o) = some o) ∧
+      out.map (groupKey idxs) = (rows.map (groupKey idxs)).eraseDups :=
+  aggregateRows_group_no_aggr sl groupBy rows hagg hne hres hlen
+
+/-- `groupKey` is the expression `aggregateRows` groups by -/
+theorem C07_groupKey_def (idxs : List Nat) (r : Row) :
+    groupKey idxs r = idxs.map fun i => (r[i]?).getD .null := rfl
+
+/-- `SELECT k FROM t GROUP BY k` on the rows 1, 2, 1 is the rows 1, 2 -/
+example : aggregateRows [⟨.expr (.val (.col ⟨[], [107]⟩)), []⟩] [⟨[], [107]⟩]
+    [[.int 1], [.int 2], [.int 1]] = .ok [[.int 1], [.int 2]] := rfl
 
 /-- **C07.avg_partial**: the cumulative average is exact when all values are equal or there is one value. -/
 theorem C07_avg_partial (x : Int) (n : Nat) : runningAvg [x] = x ∧ runningAvg (List.replicate (n + 1) x) = x :=
